@@ -278,6 +278,19 @@ func registerServerOps() {
 		}
 		return grpcAny(cc, a[1], optBytes(rest[0]), core.UnHex(rest[1]), optBytes(rest[2]))
 	})
+	// srv.detok handle mode cert forged tok n (conn v tok)×n : Detokenize over the TLS connection of the client holding
+	// `cert`; the trailing history (every value tokenized in this world so far, with the identity of the connection
+	// it arrived on) is for the model
+	core.Register("C02.srv.detok", func(a []string) string {
+		s := srv(a[0])
+		d := parseCertDesc(a[2:])
+		rest := a[2+certTokens:]
+		cc, err := s.grpcConn(d)
+		if err != nil {
+			return "noconn"
+		}
+		return grpcAny(cc, "Detokenize", optBytes(rest[0]), core.UnHex(rest[1]), nil)
+	})
 	// srv.http handle op cert data extraClientId : the HTTP API (v2, JSON) over TLS with the client certificate
 	// `cert`; extraClientId (hex or none) is smuggled into the body. Result `<status> <data>`.
 	core.Register("C02.srv.http", func(a []string) string {
